@@ -166,6 +166,8 @@ OCT [0-7]
 
 <STRING>"%(" {
   yylval->f->flush_str ();
+  yylval->f->level = 0;
+  yylval->f->in_string = false;
   BEGIN STRING_EMBEDDED;
 }
 
